@@ -334,7 +334,9 @@ func main() {
 					path := filepath.Join(outDir, fmt.Sprintf("cex_%d.json", cexN))
 					cx := writeCex(path, *prop, r, ob)
 					note := ""
-					if ob.Kind == "leak" {
+					if ob.Kind == "lock" {
+						note = " replay=none(obligation about ghost state of the execution - mutex held-flag / store to a package-level object: the explored path is the finding; a native run cannot observe it)"
+					} else if ob.Kind == "leak" {
 						note = " replay=none(two-run witness: the model gives equal public inputs and two secrets under which the leak site differs)"
 					} else if cx.Ghost {
 						note = " replay=none(obligation over ghost parameters / uninterpreted symbols: the solver model of the abstract obligation is the finding; no native input exists for it)"
